@@ -12,7 +12,7 @@ theorem selectedLines_guides (sr rp : Bool) (o : Opts) (found : Bool) (lex : Lis
       | .ok ls => if o.indentGuides && !o.asciiOnly then indentGuides rp o.tabSize ls else .ok ls := by
   unfold selectedLines
   have hsc : shownCode { o with indentGuides := false } code = shownCode o code := rfl
-  simp only [lineOffset, hsc]
+  simp only [linesOfText, lineOffset, hsc]
   cases highlight sr found (lex (expandTabs o.tabSize (shownCode o code))) (expandTabs o.tabSize (shownCode o code)) o.lineRange with
   | error e => rfl
   | ok text => simp
